@@ -991,6 +991,60 @@ func ruleLEX5(c *Ctx) {
 			return true
 		})
 	}
+	// and encodes each ID injectively: a fixed-width store into the slot of that width, or an
+	// allow-listed self-delimiting append (the signature is the identity of a DFA state)
+	if sg != nil && okSigAll {
+		okEnc, whyEnc := false, "no call encodes the NFA state's ID"
+		ast.Inspect(sg.Body, func(n ast.Node) bool {
+			rs, ok := n.(*ast.RangeStmt)
+			if !ok || !isField(info2, rs.X, "lexergen/dfa", "State", "NFAStates") {
+				return true
+			}
+			ast.Inspect(rs.Body, func(m ast.Node) bool {
+				call, ok := m.(*ast.CallExpr)
+				if !ok {
+					return true
+				}
+				idArg := -1
+				for i, a := range call.Args {
+					if isField(info2, stripConv(info2, a), "lexergen/nfa", "State", "ID") {
+						idArg = i
+					}
+				}
+				if idArg < 0 {
+					return true
+				}
+				full := fullName(calleeFunc(info2, call))
+				width := map[string]int64{
+					"encoding/binary.bigEndian.PutUint32": 4, "encoding/binary.littleEndian.PutUint32": 4,
+					"encoding/binary.bigEndian.PutUint64": 8, "encoding/binary.littleEndian.PutUint64": 8,
+				}[full]
+				switch {
+				case keyEncoders[full]:
+					// the argument must keep all bits of the id
+					okEnc = true
+				case width > 0 && idArg == 1:
+					// slot i*width of the buffer, i the range key
+					if sl, ok := ast.Unparen(call.Args[0]).(*ast.SliceExpr); ok && sl.Low != nil && sl.High == nil && rs.Key != nil {
+						terms, k := linearForm(info2, nil, sl.Low)
+						if k == 0 && len(terms) == 1 && terms[exprString(rs.Key)] == width {
+							okEnc = true
+						} else {
+							whyEnc = fmt.Sprintf("%s stores into `%s`, not into slot key*%d", full, exprString(call.Args[0]), width)
+						}
+					}
+				default:
+					if full == "" {
+						full = exprString(call.Fun)
+					}
+					whyEnc = fmt.Sprintf("the ID is encoded with %s, which is not known to be injective on uint32 (two different state sets could get one signature and be treated as the same DFA state)", full)
+				}
+				return true
+			})
+			return true
+		})
+		c.check(okEnc, rule, "dfa.State.sig/injective", p.Pos(sg.Pos()), "each NFA state ID is stored at fixed width (or by a self-delimiting encoder): different sets give different signatures", whyEnc)
+	}
 	c.check(okSort && okSigAll, rule, "dfa.State.sig/canonical", "", "the signature encodes the IDs of all NFA states, which eClosure has sorted", "the DFA state signature is not the sorted list of all NFA state IDs")
 	// getInputs skips exactly epsilon
 	_, gi := p.FuncDecl("internal/lexergen/dfa", "getInputs")
